@@ -109,12 +109,23 @@ def judgeOp (cap : Nat) (op : Op) (A B : Operand) (rhs : Tok) : String :=
         s!"SPEC {cls} result-box-inverted (negative extent: not a region)"
       else
         let ok := Valid A && Valid B && GeneralPosition A B && nestedCheck (cap / 4) A B
-        let (bad, n) := if ok then sampleCheck cap op A B R else (none, 0)
+        -- the certificate (proved sound: `C01_certificate_sound`): accepted ⇒ the result is right at
+        -- EVERY point with clear margin from the input edges; only when it is refused are sample
+        -- points searched for a concrete failing point
+        let mg := margin * ext
+        let evs := if ok then certEvents A B R else []
+        let cert := ok && certCheck mg op A B R evs
+        let (bad, n) := if ok && !cert then
+            (match certWitness mg op A B R evs with
+             | some q => (some q, 0)
+             | none => sampleCheck cap op A B R)
+          else (none, 0)
         match bad with
         | some p => s!"SPEC {cls} pointset p={showP p} result={memberRes R p} A={member A p} B={member B p} samples={n}"
         | none =>
           if m ≠ R then s!"DIFF {cls} model-differs"
-          else if ok then s!"OK {cls}" else s!"OK {cls}-outside-quantifier"
+          else if cert then s!"OK {cls}"
+          else if ok then s!"OK {cls}-uncertified" else s!"OK {cls}-outside-quantifier"
   | _ => s!"DIFF {cls} bad-answer"
 
 /-- certificate verdict for one `op` line (measurement / debugging mode) -/
